@@ -57,6 +57,9 @@ func c14Rename(tc *scCase) []scItem {
 		case "gfunc":
 			it.N = nm(it.N, it.Nb)
 			it.P = c14Name(it.Pid)
+		case "iassign":
+			it.T = nm(it.T, it.Tb)
+			it.U = nm(it.U, it.B)
 		case "cfunc", "cchain":
 			it.P = c14Name(it.Pid)
 		case "muse":
